@@ -1,2 +1,53 @@
-(* C16 placeholder *)
-From MPB Require Import Base.
+(* C16 — No goroutine outlives its container.
+   The acceptor (Container.step) has one family of events per goroutine of the library:
+   CT_* / OUT (container goroutine), HM_* (heap manager), BAR_* (one actor per bar; after
+   its exit the container goroutine renders the bar inside a cycle).  The statements say
+   that once each of them has stopped no event of the library is accepted any more.
+   Not modelled: the short-lived helper goroutines (early refresh, the auto-refresh
+   ticker listener, the shutdown-notifier sender, the detached heap-manager senders
+   removed by the "fix:" commits); for those, and for the claim that the goroutines do
+   reach their stop events on every path, the check counts goroutines after Wait on
+   every scenario of every family (runtime.Stack through the verif hook) and the
+   translator-generated spawn table (Gen/Spawns) lists every `go` statement with the
+   exit condition the leak probe relies on. *)
+From MPB Require Import Base BaseProofs BarState BarStateProofs Container ContainerProofs ContainerLife.
+
+(* the container goroutine returned, the heap manager was ended and every actor has exited:
+   from then on only answers to client calls are possible, for ever *)
+Theorem C16_nothing_runs_after_everything_stopped : forall s evs s',
+  Dead s -> run s evs = Some s' -> forallb client_event evs = true /\ Dead s'.
+Proof. exact dead_forever. Qed.
+Print Assumptions C16_nothing_runs_after_everything_stopped.
+
+(* each of the three stops is final on its own *)
+Theorem C16_container_goroutine_stops : forall s s1 evs s2,
+  step s CT_EXIT = Some s1 -> run s1 evs = Some s2 -> Quiet s2 /\ outframes s2 = outframes s.
+Proof.
+  intros s s1 evs s2 E R. destruct (exit_quiet _ _ E) as (Q & O). destruct (quiet_forever _ _ _ R Q) as (Q2 & O2).
+  split; [exact Q2|congruence].
+Qed.
+Print Assumptions C16_container_goroutine_stops.
+
+Theorem C16_heap_manager_stops : forall s hl s1 evs s2 hl',
+  step s (HM_END hl) = Some s1 -> run s1 evs = Some s2 -> step s2 (HM_END hl') = None.
+Proof. exact end_once. Qed.
+Print Assumptions C16_heap_manager_stops.
+
+Theorem C16_actor_stops : forall s s1 evs s2,
+  bev_step s Exit = Some s1 -> brun s1 evs = Some s2 -> bev_step s2 Exit = None.
+Proof. exact exit_once. Qed.
+Print Assumptions C16_actor_stops.
+
+(* the error path too ends in a quiet container *)
+Theorem C16_error_path_quiet : forall s s',
+  step s CT_RENDERERR = Some s' -> PendIdle s -> Quiet s'.
+Proof. intros s s' H P. exact (proj1 (rendererr_quiet _ _ H P)). Qed.
+Print Assumptions C16_error_path_quiet.
+
+(* non-vacuity: a cancelled run reaches a dead state *)
+Example C16_nonvacuous :
+  exists s, run (init_cst false true false)
+    [CT_OP; CT_ADD 0 0 0 5 None None false false true 0 false; HM_PUSH 0 true 0 false 0;
+     CL_CANCEL; BAR_EXIT 0 0 5 true; CT_DONE; HM_STATE 1 true 0; HM_END 1; CT_EXIT] = Some s
+  /\ ph s = Idle /\ out_pending s = false /\ ct_exited s = true /\ ended s = true /\ all_exited s = true.
+Proof. eexists. vm_compute. repeat split. Qed.
